@@ -7,7 +7,9 @@ import bprun
 EXE = {"detect": "ExDetect", "build": "ExBuild", "other": "ExOther"}
 DESC = {"ok": "DOk", "api_only": "DApiOnlyOk", "api_other": "DApiOther", "malformed": "DMalformed", "missing": "DMissing"}
 PLAT = {"ok": "PlatOk", "env_missing": "PlatEnvMissing", "bad": "PlatBad"}
-TIN = {"ok": "InOk", "missing": "InMissing", "malformed": "InMalformed"}
+# present-but-unreadable inputs (not valid UTF-8, a directory in the file's place) are errors like malformed ones:
+# only "not found" may be tolerated, and only for store.toml
+TIN = {"ok": "InOk", "missing": "InMissing", "malformed": "InMalformed", "nonutf8": "InMalformed", "isdir": "InMalformed"}
 DET = {"pass": "BPass", "pass_plan": "BPassPlan", "fail": "BFail", "error": "BErr",
        "pass_plan_or": "BPassPlan", "pass_plan_empty": "BPassPlan"}   # plan shapes: all must be written
 # names that are not exactly "detect" / "build": near misses in case, prefix, suffix, extension, stem
@@ -108,7 +110,7 @@ class C05:
     def to_coq(self, c, o):
         bs = cq_list([f"({FMT[k]}, {FOBS[v]})" for k, v in o.get("bsboms", {}).items()])
         ls = cq_list([f"({FMT[k]}, {FOBS[v]})" for k, v in o.get("lsboms", {}).items()])
-        store_pre = c["exe"] == "build" and c["store"] in ("ok", "malformed")
+        store_pre = c["exe"] == "build" and c["store"] in ("ok", "malformed", "nonutf8", "isdir")
         return "(mkCase %s %s %s (%d)%%Z %d%%nat %d%%nat %d%%nat %s %s %s %s %s)" % (
             cq_cfg(c), cq_bool(c["pre"]), cq_bool(store_pre), o["exit"], o["detect_entered"], o["build_entered"], o["on_error"],
             FOBS[o["plan"]], FOBS[o.get("launch", "absent")], FOBS[o.get("store", "absent")], bs, ls)
